@@ -1,5 +1,5 @@
 (* C06 -- Generated function bodies have sound control flow and define before use.  ONLY property theorems here. *)
-From QV Require Import model.Base model.Lang model.Types model.Tir model.CfgCheck model.Builder model.Passes model.TirCase gen.GenE0 proofs.CfgProofs proofs.BuilderInv.
+From QV Require Import model.Base model.Lang model.Types model.Tir model.CfgCheck model.Builder model.Passes model.TirCase gen.GenE0 proofs.CfgProofs proofs.BuilderInv proofs.BuilderSafe proofs.BuilderSafeSwitch proofs.BuilderCfg.
 Open Scope nat_scope.
 
 (* FULL statement (over ALL programs and class environments): every accepted binding or callback is translated to a
@@ -48,6 +48,14 @@ Theorem C06_builder_frame : forall E cb s,
   (exists more, bs_diags s' = bs_diags s ++ more).
 Proof. exact builder_frame. Qed.
 Print Assumptions C06_builder_frame.
+
+(* the first clause of the property, for ALL programs: in every function body the model of tir::build produces (any class environment, any
+   binding or handler) every `br` / `br_cond` terminator names an existing block, and no `br` names its own block *)
+Theorem C06_jump_targets_exist : forall E cb c, wf_callback cb = true -> bu_code (build_callback E cb) = Some c ->
+  forall i b t, nth_error (c_blocks c) i = Some b -> b_term b = Some t ->
+    match t with TmBr l => l < List.length (c_blocks c) /\ l <> i | TmBrCond _ x y => x < List.length (c_blocks c) /\ y < List.length (c_blocks c) | _ => True end.
+Proof. intros E cb c Hwf H. exact (build_jump_targets_exist E cb c Hwf H). Qed.
+Print Assumptions C06_jump_targets_exist.
 
 (* non-vacuity of the checker: it rejects a body whose reachable block ends in the unreachable marker, one that reads
    an unassigned temporary, and one that jumps out of range *)
